@@ -789,6 +789,19 @@ TRIAGE[("C14", "R11", Q + "binary.__call__",
     "replayed": "real code: q = binary(use_01=True, alpha=1); "
                 "q([-0.7, 0.3, 0, 1.5]) -> [0, 1, 1, 1]; q of that -> "
                 "[1, 1, 1, 1]"}
+TRIAGE[("C14", "R11", Q + "ternary.__call__",
+        "quantizer-changes-its-own-codes")] = {
+    "what_fails": "ternary with a constant alpha below its threshold (the "
+                  "threshold is an absolute input level, default 0.33, the "
+                  "alpha scales the emitted codes): the codes +-alpha lie "
+                  "inside the dead band and are re-quantized to 0.  A layer "
+                  "that stores exported ternary weights quantizes them again "
+                  "in call(), so the export changes the predictions and a "
+                  "second export stores zeros; recorded, not repaired: "
+                  "tying the threshold to alpha changes training",
+    "replayed": "real code: q = ternary(alpha=0.25); q([-1, -0.3, 0.1, 0.4, "
+                "2]) -> [-0.25, 0, 0, 0.25, 0.25]; q of that -> [0, 0, 0, 0, "
+                "0] (pointed out by the author of C14-seed14 as pre-existing)"}
 TRIAGE[("C09", "R6", Q + "quantized_linear.get_config",
         "config-describes-construction-time")] = {
     "status": "fixed", "commit": "8934ec1",
